@@ -134,12 +134,15 @@ PROPS["C20"]["timeout"] = {"quick": 300, "thorough": 1200}
 
 PROPS["C10"] = {
     "props_files": ["Props/C10.v"],
-    "go_tests": ["TestVerifClose"],
+    "go_tests": ["TestVerifClose", "TestVerifCloseOverlap"],
     "go_tests_root": ["TestVerifRootClose"],
     "level": "proof",
     "rule": "scenario runs on the real code: 200..1450 goroutines (Set/Delete/loading Get/Wait), more in-flight writes than the write queue holds with "
             "maintenance stalled in half of the trials, Close at a random moment; plain, loading and hybrid stores; then inertness and a goroutine "
-            "census (runtime.Stack) ; plus all four public cache kinds through the builders; a trial is non-trivial by construction",
+            "census (runtime.Stack) ; plus all four public cache kinds through the builders; a trial is non-trivial by construction; "
+            "plus overlapping Close calls while other callers hold shard write locks (as a loader does), stepped against Model/CloseFine.v: after every "
+            "hold / release / new Close call the harness waits until every Close call is parked in sync.RWMutex.Lock or has returned (goroutine states), "
+            "then compares every shard's closed flag, the store flag and who has returned, and probes every reachable shard once any Close has returned",
     "trusted_base": [KERNEL, HARNESS, "modelled, not verified: Go select/channel/context semantics (a select with a ready ctx.Done case never blocks); "
                      "goroutine scheduling fairness (a runnable goroutine eventually runs); wall-clock timeouts of 3-10 s in the scenario runs decide 'returned'"],
     "assumptions": ["the Go scheduler is fair", "a call that has not returned 10 s after Close counts as blocked forever (search direction only)"],
@@ -151,8 +154,9 @@ PROPS["C10"] = {
 
 PROPS["C13"] = {
     "props_files": ["Props/C13.v"],
-    "go_tests": ["TestVerifFlight", "TestVerifFlightRecycle"],
+    "go_tests": ["TestVerifFlight", "TestVerifFlightRecycle", "TestVerifStore"],
     "impl_only_traces": ["flightrecycle"],
+    "project_codes": {"store": ["8"]},
     "monitor_tags": ["C13"],
     "level": "proof",
     "rule": "scripted schedules on the real Group.Do: callers entering on 3 keys while loads are in flight (the loader is the leader's yield point, "
@@ -188,7 +192,9 @@ PROPS["C14"] = {"props_files": ["Props/C14.v"], "go_tests": ["TestVerifHybrid", 
                 "impl_only_traces": ["hybridslow"], "trusted_base": HYB_TB,
                 "assumptions": ["secondary operations are atomic with respect to the shard lock as in the code (Get/Set/Delete under the shard lock or by the single worker)"],
                 "monitor_tags": ["C14"], "explanation": "hybrid extension of the store model; every read compared with the real hybrid store and with a last-completed-write shadow"}
-PROPS["C15"] = {"props_files": ["Props/C15.v"], "go_tests": ["TestVerifHybrid"], "level": "proof", "rule": HYB_RULE, "trusted_base": HYB_TB,
+PROPS["C15"] = {"props_files": ["Props/C15.v"], "go_tests": ["TestVerifHybrid", "TestVerifHybridSlow"], "impl_only_traces": ["hybridslow"], "level": "proof",
+                "rule": HYB_RULE + "; plus scenario runs with the real maintenance goroutine and worker in which the secondary Set of an evicted entry is held open and the key is read meanwhile",
+                "trusted_base": HYB_TB,
                 "assumptions": ["admission probability 1, hand-off queue not full"],
                 "monitor_tags": ["C15"], "explanation": "demotion and boundedness on the hybrid model; secondary contents and hand-off queue compared with the real store"}
 
